@@ -826,6 +826,36 @@ class ReadInput(Contract):
         return Sym(r, 'str')
 
 
+class ReadInputBody(Contract):
+    """RealInput.read_input(prompt): hands back exactly the line input()
+    delivered, after showing exactly that prompt; EOFError / KeyboardInterrupt
+    pass through (the callers treat them as 'no reply')"""
+    module = 'trashcli.lib.my_input'
+    qualname = 'RealInput.read_input'
+    raises = ('EOFError', 'KeyboardInterrupt')
+
+    def setup(self, V):
+        self_obj = V.I.call(V.I.lookup(self.module, 'RealInput'), [], {})
+        V.ctx.ghost['input_mark'] = len(V.ctx.events)
+        return {'self': self_obj, 'prompt': arg_str('prompt')}
+
+    def post(self, V, a, out):
+        evs = [e for e in V.ctx.events[V.ctx.ghost['input_mark']:]
+               if e[0] == 'input']
+        res = [('reads-exactly-one-line', z3.BoolVal(len(evs) == 1))]
+        if len(evs) == 1:
+            res.append(('shows-the-prompt-it-was-given',
+                        z3str(evs[0][1]) == T(a['prompt'])))
+            if out[0] == 'return':
+                res.append(('reply-is-the-line-unchanged',
+                            z3.BoolVal(evs[0][2] is not None) if evs[0][2] is None
+                            else z3str(out[1]) == evs[0][2]))
+        return res
+
+    def apply(self, V, a):
+        return ReadInput().apply(V, a)
+
+
 class IsInputInteractive(Contract):
     """is_input_interactive(): interactive by default exactly when stdin is a
     terminal (C14: '-i, or a terminal on stdin')"""
@@ -945,6 +975,7 @@ def leaf_vcs(S):
     S.verify(FilterMatches())
     S.verify(ParseReply())
     S.verify(IsInputInteractive())
+    S.verify(ReadInputBody())
     S.verify(dates.OlderThan())
     S.verify(dates.ParseDeletionDate())
     S.verify(dates.MaybeParseDeletionDate())
